@@ -15,7 +15,7 @@ DEFAULT_WEIGHTS = {
     "subst": 4, "substm": 3, "cofcube": 3, "compose": 5, "constrain": 6, "restrict": 6,
     "lowhigh": 2, "topcof": 2,
     "itec": 4, "implies": 3, "size": 4, "desc": 1, "satcount": 3, "onesat": 2, "paths": 2, "bracket": 2, "dot": 1,
-    "gc": 3, "dump": 0.3,
+    "gc": 6, "dump": 0.4, "randfun": 5,
 }
 
 
@@ -33,6 +33,10 @@ class BddGen:
         self.stats = Counter()
         self.classes = Counter()
         self.last_pair = None
+        self.recent = []
+        self.complex = []
+        self.by_tt = {}
+        self._live_cache = (-1, set())
         # preamble: constants and variables
         self.reg("const 1", self.c.one)
         self.reg("const 0", 0)
@@ -40,8 +44,14 @@ class BddGen:
             self.reg("var %d" % v, self.c.var(v))
 
     # ---- bookkeeping
+    REPLAYABLE = ("ite", "and", "or", "xor", "eq", "imply", "constrain", "restrict", "compose", "subst", "substm", "cofcube", "andmany", "ormany", "expr")
+
     def reg(self, line, tt, ok=True):
         self.lines.append(line)
+        if ok and line.split()[0] in self.REPLAYABLE and not getattr(self, "_replaying", False):
+            self.recent.append((line, tt))
+            if len(self.recent) > 60:
+                self.recent.pop(0)
         k = len(self.tt)
         self.tt.append(tt if ok else None)
         if ok and tt is not None:
@@ -62,6 +72,57 @@ class BddGen:
             return None
         return self.c.neg(t) if neg else t
 
+    # ---- functions with rich diagrams: built bottom-up from a truth table with `node` (Shannon expansion, shared sub-functions)
+    def build_function(self, t, v=1):
+        """register holding a handle for truth table t (depends only on variables >= v); emits the node lines it needs"""
+        c = self.c
+        known = self.by_tt.get(t)
+        if known is not None and known in self.live_set():
+            return (known, False)
+        known = self.by_tt.get(c.neg(t))
+        if known is not None and known in self.live_set():
+            return (known, True)
+        if t == c.one:
+            return (0, False)
+        if t == 0:
+            return (1, False)
+        while not c.depends(t, v):
+            v += 1
+        lo = self.build_function(c.cof(t, v, False), v + 1)
+        hi = self.build_function(c.cof(t, v, True), v + 1)
+        k = self.reg("node %d %s %s" % (v, self.a(*lo), self.a(*hi)), t)
+        self.by_tt[t] = k
+        return (k, False)
+
+    def live_set(self):
+        if self._live_cache[0] != len(self.live):
+            self._live_cache = (len(self.live), set(self.live))
+        return self._live_cache[1]
+
+    def op_randfun(self):
+        r = self.rng
+        x = r.random()
+        if x < 0.5:
+            t = r.getrandbits(self.c.rows)
+        elif x < 0.75:                                   # unbalanced: few models / few counter-models
+            t = 0
+            for _ in range(r.randrange(1, max(2, self.c.rows // 4))):
+                t |= 1 << r.randrange(self.c.rows)
+            if r.random() < 0.5:
+                t = self.c.neg(t)
+        else:                                            # shares sub-functions: f = x1 ? g : h with g, h related
+            g = r.getrandbits(self.c.rows)
+            g = self.c.cof(g, 1, True)
+            h = r.choice([self.c.neg(g), g ^ self.c.var(self.n), g & self.c.var(max(1, self.n - 1)), self.c.cof(r.getrandbits(self.c.rows), 1, False)])
+            h = self.c.cof(h, 1, True)
+            t = self.c.ite(self.c.var(1), g, h)
+        k, n = self.build_function(t)
+        self.classes["randfun"] += 1
+        if k not in self.complex:
+            self.complex.append(k)
+        if len(self.complex) > 40:
+            self.complex.pop(0)
+
     # ---- argument choice
     def pick(self):
         """(register, complemented) -- mostly live, sometimes deliberately dead / out of range"""
@@ -70,6 +131,10 @@ class BddGen:
             self.classes["arg:malformed"] += 1
             return (r.randrange(len(self.tt) + 3), r.random() < 0.5)
         x = r.random()
+        if x > 0.72 and self.complex:
+            k = r.choice(self.complex)
+            if k in self.live_set():
+                return (k, r.random() < 0.5)
         if x < 0.08:
             return (r.choice([0, 1]), False)                       # a constant
         if x < 0.5 and len(self.live) > 12:
@@ -355,6 +420,7 @@ class BddGen:
                 roots.append((r.choice([0, 1]), False))     # a constant root
         self.classes["gc:roots=%s" % ("0" if not roots else "1-3" if len(roots) <= 3 else "4+")] += 1
         self.q("gc %d %s" % (len(roots), " ".join(self.a(*x) for x in roots)))
+        self._live_cache = (-1, set())
         if any(k >= len(self.tt) for k, _ in roots):
             return                      # skipped by both runners
         known = [self.tt[k] for k, _ in roots]
@@ -370,25 +436,78 @@ class BddGen:
             sub |= self.c.subfunctions(t)
         sub.add(0)
         self.live = [k for k in self.live if self.tt[k] is not None and self.c.norm(self.tt[k]) in sub]
+        self.replay_after_gc()
+
+    def line_regs(self, line):
+        """register numbers a replayable line mentions"""
+        t = line.split()
+        op = t[0]
+        if op in ("ite",):
+            toks = t[1:4]
+        elif op in ("and", "or", "xor", "eq", "imply", "constrain", "restrict"):
+            toks = t[1:3]
+        elif op == "compose":
+            toks = [t[1], t[3]]
+        elif op in ("subst", "substm", "cofcube"):
+            toks = [t[1]]
+        elif op in ("andmany", "ormany"):
+            toks = t[2:2 + int(t[1])]
+        elif op == "expr":
+            toks = [x[1:] for x in t[1:] if x.startswith("t")]
+        else:
+            toks = []
+        return [int(x.lstrip("~")) for x in toks]
+
+    def replay_after_gc(self):
+        """the stratum 'the same operation again after a collection' (a stale cache entry or a reused slot shows here)"""
+        if not self.recent or self.rng.random() < 0.35:
+            return
+        live = set(self.live)
+        cands = [(l, tt) for (l, tt) in self.recent if all(k in live for k in self.line_regs(l))]
+        self.rng.shuffle(cands)
+        self._replaying = True
+        for (l, tt) in cands[: self.rng.randrange(1, 7)]:
+            self.classes["replay-after-gc"] += 1
+            self.reg(l, tt, tt is not None)
+        self._replaying = False
 
     def op_query(self, kind):
         if kind == "itec":
             f, g, h = self.pick(), self.pick(), self.pick()
             x = self.rng.random()
-            if x < 0.25 and self.last_pair:
-                pass
-            if x < 0.3:
+            cached = [l for (l, _) in self.recent[-25:] if l.split()[0] in ("ite", "and", "or", "xor", "eq", "imply")]
+            if x < 0.45 and cached:
+                # the instance an earlier operation has just computed (and cached, possibly as a constant)
+                t = self.rng.choice(cached).split()
+                neg = lambda a: a[1:] if a.startswith("~") else "~" + a
+                one, zero = "0", "1"
+                trip = {"ite": lambda: (t[1], t[2], t[3]), "and": lambda: (t[1], t[2], zero), "or": lambda: (t[1], one, t[2]),
+                        "xor": lambda: (t[1], neg(t[2]), t[2]), "eq": lambda: (t[1], t[2], neg(t[2])), "imply": lambda: (t[1], t[2], one)}[t[0]]()
+                self.classes["itec:just-computed-instance"] += 1
+                self.q("itec %s %s %s" % trip)
+                if t[0] == "imply":
+                    self.q("implies %s %s" % (t[1], t[2]))
+                return
+            if x < 0.6:
                 h = (0, False)           # implication shape
-            elif x < 0.4:
+            elif x < 0.7:
+                h = (1, False)           # conjunction shape
+            elif x < 0.8:
                 g, h = (1, False), f     # ite(F,0,F)
-            elif x < 0.5:
+            elif x < 0.9:
                 h = (f[0], not f[1])
             self.q("itec %s %s %s" % (self.a(*f), self.a(*g), self.a(*h)))
         elif kind == "implies":
             f, g = self.pick(), self.pick()
-            if self.rng.random() < 0.3:
-                # something that does imply: f & x => f
-                pass
+            cached = [l for (l, _) in self.recent[-25:] if l.split()[0] in ("and", "or", "imply")]
+            if self.rng.random() < 0.4 and cached:
+                t = self.rng.choice(cached).split()
+                # f&g => f ; f => f|g ; the cached implication itself
+                k = len(self.tt) - 1
+                self.classes["implies:related-to-cached"] += 1
+                self.q("implies %s %s" % (t[1], t[2]))
+                self.q("implies %s %s" % (t[2], t[1]))
+                return
             self.q("implies %s %s" % (self.a(*f), self.a(*g)))
         elif kind == "size":
             f = self.pick()
@@ -461,6 +580,8 @@ class BddGen:
             self.op_topcof()
         elif kind == "gc":
             self.op_gc()
+        elif kind == "randfun":
+            self.op_randfun()
         else:
             self.op_query(kind)
 
